@@ -2,6 +2,8 @@ import TeaalVerif.Driver.Util
 import TeaalVerif.IR.Tensor
 import TeaalVerif.Props.C05
 import TeaalVerif.Props.C07Heap
+import TeaalVerif.Props.C07Taint
+import TeaalVerif.Nest.Compile
 open Lean
 namespace Driver
 
@@ -129,6 +131,100 @@ def rankheap (j : Json) : Except String Json := do
     let scopedJ := inner.map fun (x, ids) => Json.arr #[Json.str x, jStrs ids]
     let inputsSame := inputs.all fun (x, ids) => (h.cls x).map h.ids == some ids
     return Json.mkObj ([("ok", Json.bool true), ("final", Json.arr final.toArray), ("scoped", Json.arr scopedJ.toArray), ("inputs_unchanged", Json.bool inputsSame)] ++ stats)
+
+/-! ### origin of every fiber / payload reference (`Taint.chk`, sound for every execution: `C07.tchk_sound`) on the real tree -/
+
+def clobberAll (p : HF.Payload) : List Taint.TOp := (patVars p).map fun x => .clobber x
+
+/-- the variable a fiber expression is rooted in (`a_k.project(...).prune(...)`, `Fiber.fromLazy(a_k)`, `(a_k)`) -/
+partial def srcVar : HF.Expr → Option String
+  | .var f => some f
+  | .parens e => srcVar e
+  | .method (.var "Fiber") "fromLazy" _ [e] => srcVar e
+  | .method o _ _ _ => srcVar o
+  | _ => none
+
+/-- which payload variable of a loop target is bound from which fiber of the loop's iteration expression (positionally: `x << y`
+    and `x & y` yield pairs, `x | y` triples with a mask in front, `Fiber.intersection(a, b, ...)` a tuple in argument order) -/
+partial def bindPat : HF.Payload → HF.Expr → List Taint.TOp
+  | pat, .parens e => bindPat pat e
+  | .tuple [pl, pr], .binop l .ltlt r => bindPat pl l ++ bindPat pr r
+  | .tuple [pl, pr], .binop l .and r => bindPat pl l ++ bindPat pr r
+  | .tuple [m, pl, pr], .binop l .or r => clobberAll m ++ bindPat pl l ++ bindPat pr r
+  | pat, .method (.var "Fiber") "fromLazy" _ [e] => bindPat pat e
+  | .tuple ps, .method (.var "Fiber") "intersection" kw args =>
+    let pos := (kw.zip args).filterMap fun (k, a) => if k.isNone then some a else none
+    if pos.length == ps.length then (ps.zip pos).flatMap fun (p, a) => bindPat p a else ps.flatMap clobberAll
+  | .var x, e => match srcVar e with
+    | some f => [.copyFrom x f]
+    | none => [.clobber x]
+  | pat, .method o m _ _ => if (["project", "prune", "iterRangeShapeRef", "iterRangeShape", "iterOccupancy"].contains m) then bindPat pat o else clobberAll pat
+  | pat, _ => clobberAll pat
+
+/-- the left operands of `<<` are populated (children are created in them) -/
+partial def populated : HF.Expr → List String
+  | .parens e => populated e
+  | .binop l .ltlt r => (match srcVar l with | some v => [v] | none => []) ++ populated r
+  | .method (.var "Fiber") "fromLazy" _ [e] => populated e
+  | _ => []
+
+partial def taintOf : HF.Stmt → Taint.Prog
+  | .block ss => ss.foldr (fun s acc => .seq (taintOf s) acc) .skip
+  | .for_ p e b =>
+    let (e', isEnum) := HF.stripEnumerate e
+    let inner : HF.Payload := match isEnum, p with
+      | true, .tuple [_, q] => q
+      | _, q => q
+    let posOps : List Taint.TOp := match isEnum, p with
+      | true, .tuple [q, _] => clobberAll q
+      | _, _ => []
+    let ops : List Taint.TOp := match inner with
+      | .tuple [c, pay] => clobberAll c ++ bindPat pay e'
+      | q => clobberAll q
+    let muts : List Taint.TOp := (populated e').map fun v => .mutate v
+    .loop ((posOps ++ muts ++ ops).foldr (fun o acc => .seq (.op o) acc) (taintOf b))
+  | .if_ _ t _ es el =>
+    let rest : Taint.Prog := match el with
+      | some x => taintOf x
+      | none => .skip
+    .alt (taintOf t) (es.foldr (fun s acc => .alt (taintOf s) acc) rest)
+  | .func _ _ b => .alt (taintOf b) .skip
+  | .assign (.var x) (.var y) => .op (.copyFrom x y)
+  | .assign (.var x) (.func "Tensor" _ _) => .op (.setConst x false)
+  | .assign (.var x) (.method (.var "Tensor") "fromFiber" kw args) =>
+    match (RankIds.kwArg kw args "fiber").bind srcVar with
+    | some f => .op (.copyFrom x f)
+    | none => .op (.clobber x)
+  | .assign (.var x) (.method (.var y) m kw args) =>
+    if RankIds.tensorMethods.contains m then .op (.setConst x false)          -- value-returning transformations return fresh tensors
+    else if ["getRoot", "getPayload", "getPayloadRef", "project", "prune"].contains m then .op (.copyFrom x y)
+    else match srcVar (.method (.var y) m kw args) with
+      | some f => if y == "Fiber" then .op (.copyFrom x f) else .op (.clobber x)
+      | none => .op (.clobber x)
+  | .assign (.var x) e => match e with
+    | .method (.var "Fiber") "fromLazy" _ [e'] => (match srcVar e' with | some f => .op (.copyFrom x f) | none => .op (.clobber x))
+    | _ => .op (.clobber x)
+  | .iassign (.var x) _ _ => if x.endsWith "_ref" || x.endsWith "_val" then .op (.mutate x) else .skip
+  | _ => .skip
+
+partial def countMut : Taint.Prog → Nat
+  | .op (.mutate _) => 1
+  | .seq p q => countMut p + countMut q
+  | .loop b => countMut b
+  | .alt p q => countMut p + countMut q
+  | _ => 0
+
+def taintCheck (j : Json) : Except String Json := do
+  let s ← HF.stmtOfJson (← fld j "tree")
+  let inputsJ ← HF.arr (← fld j "inputs")
+  let inputs ← inputsJ.toList.mapM fun p => do
+    let a ← HF.arr p
+    HF.strOf a[0]!
+  let h0 : Taint.St := fun x => if inputs.contains x then some true else none
+  let p := taintOf s
+  match Taint.chk p (inputs, h0) with
+  | .error e => return Json.mkObj [("ok", Json.bool false), ("why", Json.str e), ("mutations", (countMut p : Json))]
+  | .ok _ => return Json.mkObj [("ok", Json.bool true), ("mutations", (countMut p : Json))]
 
 def tmpIssued (j : Json) : Except String Json := do
   let c ← HF.intOf (← fld j "count_before")
